@@ -57,7 +57,7 @@ WS = b' \t\n\r\x0b\x0c'
 
 
 def quick_runs(prop):
-    return 10000
+    return 6000
 
 
 ###############################################################################
@@ -417,6 +417,9 @@ def gen(rng, tier, prop):
         else:
             name = rng.choice(ENV_NAMES + ['QZUNSET', 'QZ\xe9A', 'QZ\x01A'])
             ops.append({'op': 'getenv', 'name': _recase(rng, name)})
+    for op in ops:
+        if op['op'] in ('settime', 'setdate') and rng.random() < 0.12:
+            op['typed_after'] = rng.choice([0.5, 1.2, 3, 3, 7.7, 30, 61])
     if rng.random() < 0.15:
         # crash/restart: the session is saved, dropped and rebuilt from the state file; what was set stays set
         for _ in range(rng.randint(1, 2)):
@@ -764,7 +767,18 @@ def _body(run):
                 cls, info = (classify_date if isdate else classify_time)(text)
                 tag = '%s-%s' % (fn, cls if cls == 'valid' else info)
                 stmt = (b'DATE$=' if isdate else b'TIME$=') + bstr(text)
-                r = crash_guard(lambda: d.exec(stmt), tag)
+                delay = op.get('typed_after')
+                if delay and text and all(32 <= ch < 127 for ch in bytearray(text)):
+                    # the value is typed by the user while the statement waits for it: what is set counts from
+                    # the moment the value is there, not from the moment the statement began
+                    stmt = (b'DATE$=' if isdate else b'TIME$=') + b'INPUT$(%d)' % len(text)
+                    w.at_time(delay, K.sig_stream(u(text)))
+                    tag += ':operand-typed-later'
+                    r = crash_guard(lambda: d.exec(stmt, poll_cap=200000), tag)
+                    c0 = max(c0, min(w.clock_us, c0 + int(delay * 1e6)))
+                    run.probe('set-with-blocking-operand')
+                else:
+                    r = crash_guard(lambda: d.exec(stmt), tag)
                 if r is None:
                     break
                 c1 = w.clock_us
